@@ -33,7 +33,7 @@ let c12_table : (string * (Z.t list -> Z.t list option)) list = Model.[
 let c13_table : (string * (Z.t list -> Z.t list option)) list = Model.[
   "poseidon", run_poseidon; "poseidon_naive", run_poseidon_naive; "poseidon_raw", run_poseidon_raw;
   "poseidon_spec", run_poseidon_spec; "poseidon_fast", run_poseidon_fast; "mds_layer", run_mds_layer;
-  "partial_rounds", run_partial_rounds; "hash_no_pad", run_hash_no_pad; "hash_n_to_m", run_hash_n_to_m;
+  "partial_rounds", run_partial_rounds; "mds_partial_fast", run_mds_partial_fast; "hash_no_pad", run_hash_no_pad; "hash_n_to_m", run_hash_n_to_m;
   "two_to_one", run_two_to_one; "hash_or_noop", run_hash_or_noop; "hash_pad", run_hash_pad;
   "challenger", run_challenger; "rchallenger", run_rchallenger; "challenger_x", run_challenger_x ]
 
